@@ -100,7 +100,7 @@ def find_method_contract(cls, name):
             continue
         seen.add(c)
         for ct in CONTRACTS.values():
-            if ct.class_name == c and ct.method_name == name and not ct.ghost.get("dataflow_only"):
+            if ct.class_name == c and ct.method_name == name and not ct.ghost.get("dataflow_only") and not ct.ghost.get("not_at_call_sites"):
                 return ct          # (contracts that only state iteration independence say nothing a call site could use)
         if c in CLASSES:
             todo.extend(CLASSES[c]["bases"])
@@ -109,7 +109,7 @@ def find_method_contract(cls, name):
 
 def find_function_contract(name):
     for ct in CONTRACTS.values():
-        if ct.func == name and not ct.ghost.get("dataflow_only"):
+        if ct.func == name and not ct.ghost.get("dataflow_only") and not ct.ghost.get("not_at_call_sites"):
             return ct
     return None
 
